@@ -456,12 +456,15 @@ def job_record(k_extra, directio, nblocks, bpf, nant, template, prior=None):
     return recs
 
 
-def job_config_fields(nant, asc=True):
+def job_config_fields(nant, asc=True, restep=False):
     """_header_populate_configuration with arbitrary (symbolic) user values under configuration-owned keys,
-    for ascending and descending bands (CHAN_BW, OBSBW negative, OBSFREQ counted downwards)"""
+    for ascending and descending bands (CHAN_BW, OBSBW negative, OBSFREQ counted downwards).
+    restep: the recorded sub-band is moved on the existing backend (start_chan re-assigned) before the header is made"""
     recs = []
     with volt_patches():
         be, ant, ws = C02.build(4, 2, 2, 1, 2, nant, 8, 1, 1, 2, asc)
+        if restep:
+            be.start_chan = 0
         be.num_blocks, be.obs_length = 3, 3 * be.time_per_block
         hd = {k: Sym(z3.Real(f'user_{k}')) for k in OWNED}
         hd['USERCARD'] = Sym(z3.Real('user_card'))
@@ -471,9 +474,10 @@ def job_config_fields(nant, asc=True):
                 CHAN_BW=be.chan_bw * 1e-6, OBSBW=be.chan_bw * be.num_chans * 1e-6, OBSFREQ=center * 1e-6, SCANLEN=be.obs_length)
     for k, v in want.items():
         r, _ = core.check([lift(out.get(k, Sym(z3.Real('missing')))) != RV(v)], timeout_ms=30000)
-        recs.append(q(f"C04:config-owned:{nant}:{'asc' if asc else 'desc'}:{k}", r))
+        nm = f"C04:config-owned:{nant}:{'asc' if asc else 'desc'}:{k}" + (':restep' if restep else '')
+        recs.append(q(nm, r))
         if r == 'sat':
-            recs.append(cex(f'C04:config-owned:{k}', f'user-supplied {k} overrides the configuration value {v}', dict(fn='config', nant=nant, asc=asc, key=k), name=f"C04:config-owned:{nant}:{'asc' if asc else 'desc'}:{k}"))
+            recs.append(cex(f'C04:config-owned:{k}', f'card {k} is not the configuration value {v}' + (' after start_chan was re-assigned' if restep else ' (user-supplied value / stale value)'), dict(fn='config', nant=nant, asc=asc, key=k, restep=restep), name=nm))
     r, _ = core.check([lift(out['USERCARD']) != z3.Real('user_card')])
     recs.append(q(f"C04:config-owned:{nant}:{'asc' if asc else 'desc'}:user-card-kept", r))
     r, _ = core.check([lift(out['USERCARD']) != 0])
@@ -667,14 +671,19 @@ def replay_config(p):
     be = bk.RawVoltageBackend(src, qz.RealQuantizer(), pf.PolyphaseFilterbank(num_taps=2, num_branches=8), qz.ComplexQuantizer(), start_chan=1, num_chans=2,
                               block_size=4 * 2 * nant * 2 * 4, blocks_per_file=2, num_subblocks=1)
     d = tempfile.mkdtemp(prefix='c04c_', dir='/var/tmp')
+    sc = 1
     try:
+        if p.get('restep'):
+            be.record(os.path.join(d, 'first'), num_blocks=1, length_mode='num_blocks', header_dict={}, verbose=False, load_template=False)
+            sc = 2
+            be.start_chan = sc                     # the same backend stepped to the next sub-band
         be.record(os.path.join(d, 'o'), num_blocks=2, length_mode='num_blocks', header_dict={'OBSBW': 1.0, 'CHAN_BW': 9.0}, verbose=False, load_template=False)
         h = ru.read_header(os.path.join(d, 'o.0000.raw'))
     finally:
         shutil.rmtree(d, ignore_errors=True)
     sgn = 1.0 if asc else -1.0
     cbw = sgn * 1024.0 / 8 * 1e-6
-    want = dict(CHAN_BW=cbw, OBSBW=cbw * 2, OBSFREQ=(5000.0 + sgn * (1 + 0.5) * 1024.0 / 8) * 1e-6, TBIN=8 / 1024.0, OBSNCHAN=2 * nant, NBITS=8, NPOL=2)
+    want = dict(CHAN_BW=cbw, OBSBW=cbw * 2, OBSFREQ=(5000.0 + sgn * (sc + 0.5) * 1024.0 / 8) * 1e-6, TBIN=8 / 1024.0, OBSNCHAN=2 * nant, NBITS=8, NPOL=2)
     bad = [f"{k}={h.get(k)} (configuration: {v!r})" for k, v in want.items() if not np.isclose(float(h.get(k, 'nan')), v, rtol=1e-12, atol=0)]
     return bool(bad), ('; '.join(bad) or 'configuration cards describe the configuration') + f" [{'ascending' if asc else 'descending'}, {nant} antenna(s)]"
 
@@ -716,6 +725,7 @@ def main():
     for nant in (1, 2):
         jobs.append(('job_config_fields', (nant,)))
         jobs.append(('job_config_fields', (nant, False)))
+        jobs.append(('job_config_fields', (nant, nant == 1, True)))
     ck.bounds = dict(header_cards='symbolic integer >= 1 (size obligations); 0..40 cards executed; user cards 0..33 in recordings', directio=[v for v, _ in DIRECTIO_VARIANTS],
                      blocks='1..5', blocks_per_file='1..3 (recordings), symbolic n with bpf in 1..128 (split slice)', listing='all permutations of <= 3 files')
     ck.run_jobs('props.C04', jobs, timeout_s=900)
